@@ -251,6 +251,7 @@ def decode_e2e(data, nkeys, nhandlers, raw_texts, default_raw_texts):
     r = Reader(data)
     head = r.block(24)
     nsteps = 1 + head.n(8)
+    stack = head.pick(['wsgi', 'asgi'])
     inits = []
     for _ in range(2):
         inits.append({'mode': head.pick(['replace', 'inplace']), 'items': decode_items(head, nkeys, nhandlers, min_size=1)})
@@ -263,7 +264,8 @@ def decode_e2e(data, nkeys, nhandlers, raw_texts, default_raw_texts):
         _ = b.n(2)
         ops = [decode_e2e_op(b.block(OP_BLOCK), nkeys, nhandlers) for _ in range(2)][:nops]
         steps.append({'ops': ops})
-    return {'default': default, 'init_req': inits[0], 'init_resp': inits[1], 'pool': pool, 'steps': steps[:nsteps]}
+    return {'default': default, 'init_req': inits[0], 'init_resp': inits[1], 'pool': pool, 'steps': steps[:nsteps],
+            'stack': stack}
 
 
 def e2e_cases(nkeys, nhandlers, raw_texts, default_raw_texts):
